@@ -77,11 +77,96 @@ def canary_oracle(c):
     return None
 
 
+_base_logs = {}
+
+
+def tagged_payloads(rnd, specs, names):
+    """Valid nodes of registered object classes carrying their own !Class tag, bare and wrapped in untagged collections."""
+    objs = [s['name'] for s in specs if s['kind'] == 'obj' and s.get('registered', True)]
+    out = []
+    for nm in objs[:3]:
+        try:
+            n = loadcase.gen_node(rnd, specs, ('class', nm))
+        except (IndexError, ValueError):
+            continue
+        if not isinstance(n, yaml.MappingNode):
+            continue
+        n.tag = '!' + nm
+        out += [n, loadcase.Q([encode.copy_tree(n)]), loadcase.M([(loadcase.S('w'), encode.copy_tree(n))]),
+                loadcase.M([(loadcase.S('w'), loadcase.Q([encode.copy_tree(n)]))])]
+    return out
+
+
+def injection_oracle(c):
+    """Adding content at an Any / untyped / extra position must not cause additional constructor calls."""
+    calls = sorted((e[0], e[2]) for e in c.log if e[0] in ('init', 'strctor'))      # by class: arguments legitimately differ
+    if c.desc.startswith('base:'):
+        _base_logs[c.desc[5:]] = calls
+        return None
+    if c.desc.startswith('inject:'):
+        base = list(_base_logs.get(c.desc[7:].split('|')[0], []))
+        extra = []
+        for x in calls:
+            if x in base:
+                base.remove(x)
+            else:
+                extra.append(x)
+        if extra:
+            return ('stray-construction:' + c.desc.split('|')[1],
+                    f'content injected at an Any/extra position made constructors run: {extra[:2]} for {c.text!r}')
+    return None
+
+
+def directed(rnd, specs, names, counter):
+    payloads = tagged_payloads(rnd, specs, names)
+    if not payloads:
+        return
+    # (1) top-level Any: no constructor may run at all
+    for p in payloads:
+        counter[0] += 1
+        key = 'k%d' % counter[0]
+        yield 'any', loadcase.S('x'), 'base:' + key
+        yield 'any', p, 'inject:' + key + '|any'
+    # (2) classes with _yatiml_extra, untyped or Any parameters
+    for s in specs:
+        if s['kind'] != 'obj' or not s.get('registered', True):
+            continue
+        try:
+            base = loadcase.gen_node(rnd, specs, ('class', s['name']))
+        except (IndexError, ValueError):
+            continue
+        if not isinstance(base, yaml.MappingNode):
+            continue
+        spots = []
+        if s.get('extra'):
+            spots += ['extra_key', '_yatiml_extra']
+        spots += [p['name'] for p in s['params'] if p.get('type') in (None, 'any')]
+        for spot in spots:
+            for p in payloads[:4]:
+                counter[0] += 1
+                key = 'k%d' % counter[0]
+                b = encode.copy_tree(base)
+                b.value = [kv for kv in b.value if kv[0].value != spot]
+                inj = encode.copy_tree(b)
+                inj.value.append((loadcase.S(spot), encode.copy_tree(p)))
+                if spot not in ('extra_key', '_yatiml_extra'):
+                    b.value.append((loadcase.S(spot), loadcase.S('x')))
+                yield ('class', s['name']), b, 'base:' + key
+                yield ('class', s['name']), inj, 'inject:' + key + '|' + ('extra' if spot in ('extra_key', '_yatiml_extra') else 'any-param')
+
+
 def stream(ctx):
     rnd = random.Random(ctx['seed'] * 19 + 404)
+    counter = [0]
     n_models = 100 if ctx['tier'] == 'quick' else 2500
     for specs in (loadcase.gen_model(rnd, hooks=True) for _ in range(n_models)):
         names = [s['name'] for s in specs if s.get('registered', True)]
+        if rnd.random() < 0.5:
+            for tyspec, node, desc in directed(rnd, specs, names, counter):
+                try:
+                    yield specs, tyspec, loadcase.serialize(node), desc
+                except Exception:       # noqa
+                    continue
         for _ in range(7):
             tyspec = ('class', rnd.choice(names)) if names and rnd.random() < 0.6 else loadcase.gen_type(rnd, names, 2)
             try:
@@ -114,7 +199,7 @@ def tie(ctx, model_ok=True):
     os.close(fd)
     os.environ['VERIF_CANARY_FILE'] = path
     try:
-        res = loadprop.run_stream(ctx, 'C04', stream(ctx), [init_log_oracle, canary_oracle, oracles.c01_oracle],
+        res = loadprop.run_stream(ctx, 'C04', stream(ctx), [init_log_oracle, canary_oracle, oracles.c01_oracle, injection_oracle],
                                   compare_if=lambda c: True)
     finally:
         os.unlink(path)
